@@ -146,7 +146,13 @@ inline ExecOut execute(Adapter& A, const Case& c, const Opts& o, xv::Scheduler& 
   ExecOut out;
   xv::set_abort_handler([&]() {
     // called on a fatal violation; the process exits right after
-    if (sh) { sh->status = xv::status(); strncpy(sh->detail, xv::detail().c_str(), sizeof sh->detail - 1); }
+    if (sh) {
+      sh->status = xv::status(); strncpy(sh->detail, xv::detail().c_str(), sizeof sh->detail - 1);
+      const xv::Result& pr = xv::partial_result();
+      sh->nsched = (int)std::min<size_t>(pr.schedule.size(), 60000); for (int i = 0; i < sh->nsched; i++) { sh->sched[i] = pr.schedule[i]; sh->enabled[i] = pr.enabled[i]; }
+      sh->nchoices = (int)std::min<size_t>(pr.choices.size(), 256); for (int i = 0; i < sh->nchoices; i++) sh->choices[i] = pr.choices[i];
+      sh->steps = (long)xv::step_count();
+    }
     dump(xv::status(), xv::detail());
     if (print) std::cout.flush();
   });
